@@ -13,6 +13,7 @@ use sciparse::{
     core::{convert::ToModel, model::Model},
     dataplane_path::{
         model::DpPath,
+        onehop::model::OneHopPath,
         standard::{
             model::{HopField, InfoField, Segment, StandardPath},
             types::{HopFieldFlags, HopFieldMac, InfoFieldFlags},
@@ -177,11 +178,11 @@ pub struct Hop { pub flags: u8, pub exp: u8, pub cin: u16, pub ceg: u16, pub mac
 #[derive(Clone, Debug, PartialEq)]
 pub struct Info { pub flags: u8, pub segid: u16, pub ts: u32 }
 #[derive(Clone, Debug, PartialEq)]
-pub struct Pkt { pub src: u64, pub dst: u64, pub ci: u8, pub ch: u8, pub lens: Vec<u8>, pub infos: Vec<Info>, pub hops: Vec<Hop> }
+pub struct Pkt { pub src: u64, pub dst: u64, pub ci: u8, pub ch: u8, pub lens: Vec<u8>, pub infos: Vec<Info>, pub hops: Vec<Hop>, pub onehop: bool }
 
 impl Pkt {
     pub fn from_model(src: u64, dst: u64, p: &StandardPath) -> Pkt {
-        let mut k = Pkt { src, dst, ci: p.current_info_field, ch: p.current_hop_field, lens: vec![], infos: vec![], hops: vec![] };
+        let mut k = Pkt { src, dst, ci: p.current_info_field, ch: p.current_hop_field, lens: vec![], infos: vec![], hops: vec![], onehop: false };
         for s in p.segments.iter() {
             k.lens.push(s.hop_fields.len() as u8);
             k.infos.push(Info { flags: s.info_field.flags.bits(), segid: s.info_field.segment_id, ts: s.info_field.timestamp });
@@ -209,7 +210,20 @@ impl Pkt {
         }
         p
     }
+    pub fn from_onehop(src: u64, dst: u64, p: &OneHopPath) -> Pkt {
+        let h = |h: &HopField| Hop { flags: h.flags.bits(), exp: h.expiration_units, cin: h.cons_ingress, ceg: h.cons_egress, mac: h.mac.0 };
+        Pkt { src, dst, ci: 0, ch: 0, lens: vec![], onehop: true,
+              infos: vec![Info { flags: p.info.flags.bits(), segid: p.info.segment_id, ts: p.info.timestamp }],
+              hops: vec![h(&p.hops[0]), h(&p.hops[1])] }
+    }
+    pub fn to_onehop(&self) -> OneHopPath {
+        let h = |h: &Hop| HopField { flags: HopFieldFlags::from_bits_truncate(h.flags), expiration_units: h.exp, cons_ingress: h.cin, cons_egress: h.ceg, mac: HopFieldMac(h.mac) };
+        OneHopPath::new_from_parts(
+            InfoField { flags: InfoFieldFlags::from_bits_truncate(self.infos[0].flags), segment_id: self.infos[0].segid, timestamp: self.infos[0].ts },
+            [h(&self.hops[0]), h(&self.hops[1])])
+    }
     pub fn well_formed(&self) -> bool {
+        if self.onehop { return self.lens.is_empty() && self.infos.len() == 1 && self.hops.len() == 2; }
         !self.lens.is_empty() && self.lens.len() <= 3 && self.lens.iter().all(|&l| l >= 1)
             && self.infos.len() == self.lens.len()
             && self.lens.iter().map(|&l| l as usize).sum::<usize>() == self.hops.len()
@@ -219,7 +233,8 @@ impl Pkt {
         if !self.well_formed() { return None; }
         let s = ScionAddr::V4(ScionAddrV4::new(IsdAsn(self.src), std::net::Ipv4Addr::new(10, 0, 0, 1)));
         let d = ScionAddr::V4(ScionAddrV4::new(IsdAsn(self.dst), std::net::Ipv4Addr::new(10, 0, 0, 2)));
-        ScionRawPacket::new(s, d, DpPath::Standard(self.to_model()), ProtocolNumber::Other(0), vec![1, 2, 3])
+        let path = if self.onehop { DpPath::OneHop(self.to_onehop()) } else { DpPath::Standard(self.to_model()) };
+        ScionRawPacket::new(s, d, path, ProtocolNumber::Other(0), vec![1, 2, 3])
             .try_encode_to_owned_view().ok()
     }
     pub fn uses_peering(&self) -> bool { self.infos.iter().any(|i| i.flags & 2 != 0) }
@@ -303,7 +318,7 @@ pub fn run_impl(topo: &ScionTopology, pkt: &Pkt, now: u32, at: u64, ifid: u16) -
     match r { Ok((t, e)) => { trace = t; end = e; } Err(_) => { trace = vec![]; end = 2; } }
     let fin = match raw.header().path() {
         ScionDpPathViewRef::Standard(v) => Some(Pkt::from_model(pkt.src, pkt.dst, &v.to_model())),
-        _ => None,
+        _ => None, // one-hop: state not compared
     };
     RunOut { trace, end, fin }
 }
@@ -327,7 +342,7 @@ impl Case {
             self.out.end, fin)
     }
     pub fn kind_name(&self) -> String {
-        match self.kind { 0 => "offered".into(), 1 => "reverse".into(), _ => format!("mut.{}", self.what.split(' ').next().unwrap_or("")) }
+        match self.kind { 0 => "offered".into(), 1 => "reverse".into(), 3 => format!("onehop.{}", self.what.split(' ').nth(1).unwrap_or("")), _ => format!("mut.{}", self.what.split(' ').next().unwrap_or("")) }
     }
     pub fn end_name(&self) -> String {
         if self.out.end != 0 { return format!("abnormal{}", self.out.end); }
@@ -421,12 +436,35 @@ impl World {
         for (s, d, pp, _) in self.paths.iter().filter(|p| p.2.uses_peering() && p.2.lens.len() == 2 && p.2.lens[0] == 2) {
             if made >= 1 || out.len() >= budget { break; }
             let Some((_, _, r, _)) = self.paths.iter().find(|q| q.0 == *s && !q.2.uses_peering() && q.2.lens[0] >= 2 && q.2.hops[0] == pp.hops[0] && q.2.infos[0].flags & 1 == 0) else { continue };
-            let q = Pkt { src: *s, dst: *d, ci: 0, ch: 0, lens: vec![2, 2],
+            let q = Pkt { src: *s, dst: *d, ci: 0, ch: 0, onehop: false, lens: vec![2, 2],
                 infos: vec![r.infos[0].clone(), Info { flags: 0, segid: pp.infos[0].segid, ts: pp.infos[0].ts }],
                 hops: vec![r.hops[0].clone(), r.hops[1].clone(), pp.hops[1].clone(), pp.hops[2].clone()] };
             let c = self.case(&self.topo, &self.real, now, *s, 0, q, 2, "peer_xover_splice".into(), vec![]);
             if c.out.end == 4 { continue; }
             out.push(c); made += 1;
+        }
+        // directed: one-hop paths over a link (intact, link down, forged MAC, expired, no such interface)
+        if !self.topo.links.is_empty() && out.len() + 3 <= budget && rng.chance(1, 2) {
+            for variant in [rng.below(5)] {
+                let l = rng.pick(&self.topo.links).clone();
+                let key = self.topo.ases.iter().find(|a| a.ia == l.a).map(|a| a.key).unwrap_or([0; 16]);
+                let oh = OneHopPath::new(l.aif, rng.below(65536) as u16, self.ts, key, 63);
+                let mut p = Pkt::from_onehop(l.a, l.b, &oh);
+                let mut topo = self.topo.clone();
+                let mut now2 = now;
+                let what = match variant {
+                    0 => "onehop intact".to_string(),
+                    1 => { for x in topo.links.iter_mut() { if x.a == l.a && x.aif == l.aif { x.up = false; } } "onehop link_down".into() }
+                    2 => { p.hops[0].mac[2] ^= 0x40; "onehop forged_mac".into() }
+                    3 => { now2 = self.ts + 400_000; "onehop expired".into() }
+                    _ => { p.hops[0].ceg = 41 + rng.below(5) as u16; "onehop no_such_interface".into() }
+                };
+                let real2;
+                let real_ref = if topo.links.iter().any(|l| !l.up) { match topo.to_real() { Some(r) => { real2 = r; &real2 } None => continue } } else { &self.real };
+                let c = self.case(&topo, real_ref, now2, l.a, 0, p, 3, what, vec![]);
+                if c.out.end == 4 { continue; }
+                out.push(c);
+            }
         }
         // mutated packets
         let mut guard = 0;
@@ -524,7 +562,7 @@ fn recombine(rng: &mut Rng, a: &Pkt, b: &Pkt) -> Pkt {
     for s in 0..b.lens.len() { pool.push(segment(b, s)); }
     rng.shuffle(&mut pool);
     let k = rng.range(1, 3.min(pool.len() as u64)) as usize;
-    let mut q = Pkt { src: a.src, dst: if rng.chance(1, 2) { a.dst } else { b.dst }, ci: 0, ch: 0, lens: vec![], infos: vec![], hops: vec![] };
+    let mut q = Pkt { src: a.src, dst: if rng.chance(1, 2) { a.dst } else { b.dst }, ci: 0, ch: 0, lens: vec![], infos: vec![], hops: vec![], onehop: false };
     for (i, h) in pool.into_iter().take(k) {
         let mut i = i; let mut h = h;
         if rng.chance(1, 4) { i.flags ^= 1; h.reverse(); }
